@@ -164,8 +164,34 @@ static std::string placement_text(char placement, int align, int fill)
 // ------------------------------------------------------------------------------------------------ judging one evaluation
 static long long g_evals = 0, g_distinct = 0, g_skipped = 0, g_asan_reports = 0;
 
+// LONG part: keys are one of a few named patterns of a given length; they are described, not written out
+static int g_long_kind = -1;
+static const char* const LONG_NAME[4] = {"word counter (32-bit word w = (w+1)*2654435761, little-endian: all 4- and 8-byte blocks distinct)",
+                                         "FF FE FD .. (period 256)", "00 .. 00 80", "00 FF .. FF"};
+static std::string long_content(int kind, std::size_t L)
+{
+    std::string s(L, '\0');
+    for (std::size_t i = 0; i < L; ++i)
+    {
+        switch (kind)
+        {
+        case 0: s[i] = char((uint32_t((i / 4 + 1)) * 2654435761u) >> (8 * (i % 4))); break;
+        case 1: s[i] = char(0xff - (i & 0xff)); break;
+        case 2: s[i] = char(i + 1 == L ? 0x80 : 0x00); break;
+        default: s[i] = char(i == 0 ? 0x00 : 0xff); break;
+        }
+    }
+    return s;
+}
+static std::string key_text(const uint8_t* c, std::size_t L)
+{
+    if (g_long_kind < 0) return "key bytes " + spaced(c, L);
+    return std::string("key = pattern '") + LONG_NAME[g_long_kind] + "' of length " + num((long long)L) + " (first bytes " + spaced(c, std::min<std::size_t>(L, 12)) + ")";
+}
+
 static std::vector<std::string> replay_args(int fn, uint64_t seed, int align, int fill, char placement, const uint8_t* c, std::size_t L)
 {
+    if (g_long_kind >= 0) return {"--long-one", FN_NAME[fn], h64(seed), num(align), num(g_long_kind), num((long long)L)};
     return {"--one", FN_NAME[fn], h64(seed), num(align), num(fill), std::string(1, placement), hexs(c, L)};
 }
 
@@ -183,7 +209,7 @@ static void report_value(int fn, uint64_t seed, int align, int fill, char placem
     if (g_occ[fn][cls_index(fn, L)][k]++ > 0) return;
     const char* kind = KIND_NAME[k];
     std::string sig = std::string("C14/") + FN_NAME[fn] + "/" + cls_name(fn, L) + "/" + kind;
-    std::string msg = std::string(FN_NAME[fn]) + "(key, " + num((long long)L) + ", seed " + h64(seed) + ") with key bytes " + spaced(c, L) + ", " +
+    std::string msg = std::string(FN_NAME[fn]) + "(key, " + num((long long)L) + ", seed " + h64(seed) + ") with " + key_text(c, L) + ", " +
                       placement_text(placement, align, fill) + ": returned " + h64(got) + ", reference " + REF_NAME[fn] + " gives " + h64(exp);
     if (!canonical && canon_known) msg += "; the same key at offset 0 of an exact-size block returned " + h64(canon);
     vf::violation(sig, msg, replay_args(fn, seed, align, fill, placement, c, L));
@@ -230,7 +256,7 @@ static void report_asan(int fn, uint64_t seed, int align, int fill, char placeme
     if (g_occ[fn][cls_index(fn, L)][k]++ > 0) return;
     const char* kind = KIND_NAME[k];
     std::string sig = std::string("C14/") + FN_NAME[fn] + "/" + cls_name(fn, L) + "/" + kind;
-    std::string msg = std::string(FN_NAME[fn]) + "(key, " + num((long long)L) + ", seed " + h64(seed) + ") with key bytes " + spaced(c, L) + ", " +
+    std::string msg = std::string(FN_NAME[fn]) + "(key, " + num((long long)L) + ", seed " + h64(seed) + ") with " + key_text(c, L) + ", " +
                       placement_text(placement, align, fill) + ": " + what + " - only [key, key+" + num((long long)L) + ") may be accessed";
     vf::violation(sig, msg, replay_args(fn, seed, align, fill, placement, c, L));
 }
@@ -641,6 +667,149 @@ static void part_fs()
     vf::sample("std::hash of the string [61 80 ff] built 4 ways in 7 fixed-string types (capacities 3,16,55,255,256; packed, size-field and strlen layouts) -> one value", 12);
 }
 
+// ------------------------------------------------------------------------------------------------ part: long (alignment x length grid)
+// every length lmin..lmax x every offset 0..naligns-1 of a 16-aligned exact-size malloc block x seeds x the LONG_NAME patterns:
+// reaches any buffering / chunking / unrolling by up to lmax bytes, at every alignment relative to 16
+static void long_one(int fn, uint64_t seed, int align, int kind, std::size_t L, bool verbose)
+{
+    g_long_kind = kind;
+    std::string content = long_content(kind, L);
+    const uint8_t* c = reinterpret_cast<const uint8_t*>(content.data());
+    const uint64_t exp = ref(fn, c, L, seed);
+    Block b0 = make_block(block_total('R', 0, L));
+    place(b0, 0, L, 0xff, c);
+    uint64_t canon = call(fn, b0.base, L, seed);
+    bool as0 = vf::take_asan();
+    Block b = make_block(block_total('R', align, L));
+    place(b, align, L, 0xff, c);
+    uint64_t got = call(fn, b.base + align, L, seed);
+    bool as = vf::take_asan();
+    ++g_evals;
+    if (align == 0) { got = canon; as = as0; }
+    if (got != exp) report_value(fn, seed, align, 0xff, 'R', c, L, got, exp, true, canon);
+    if (as) report_asan(fn, seed, align, 0xff, 'R', c, L, b.base + align);
+    if (verbose) std::printf("%s: returned %s, reference %s, at offset 0: %s, asan=%d\n", FN_NAME[fn], h64(got).c_str(), h64(exp).c_str(), h64(canon).c_str(), int(as));
+    free_block(b0);
+    free_block(b);
+    g_long_kind = -1;
+}
+
+static void part_long(std::size_t lmin, std::size_t lmax, std::size_t lmain, int naligns, bool wide, int shard, int nshard)
+{
+    std::vector<uint64_t> seeds[NFN];
+    for (int fn = 0; fn < NFN; ++fn)
+    {
+        if (wide) seeds[fn] = seeds_for(fn, false);
+        else seeds[fn] = {0, 0xc70f6907ull, fn == X86 ? 0xFFFFFFFFull : ~0ull};
+    }
+    bool skip[NFN][8];
+    std::memset(skip, 0, sizeof skip);
+    long long lengths = 0;
+    bool stopped = false;
+    for (std::size_t L = lmin; L <= lmax; ++L)
+    {
+        if (int(L % std::size_t(nshard)) != shard) continue;
+        if (out_of_time())
+        {
+            vf::cap("long part shard " + num(shard) + "/" + num(nshard) + " stopped by its deadline at length " + num((long long)L) + " of " + num((long long)lmax));
+            stopped = true;
+            break;
+        }
+        std::vector<Block> blocks;
+        for (int a = 0; a < naligns; ++a)
+        {
+            blocks.push_back(make_block(block_total('R', a, L)));
+            if (naligns > 8 && (reinterpret_cast<uintptr_t>(blocks.back().base) & 15) != 0) { std::fprintf(stderr, "malloc block not 16-aligned\n"); std::exit(2); }
+        }
+        for (int kind = 0; kind < 4; ++kind)
+        {
+            if (L == 0 && kind > 0) continue;
+            g_long_kind = kind;
+            std::string content = long_content(kind, L);
+            const uint8_t* c = reinterpret_cast<const uint8_t*>(content.data());
+            uint64_t canon[NFN][8], expv[NFN][8];
+            for (int fn = 0; fn < NFN; ++fn)
+                for (std::size_t si = 0; si < seeds[fn].size(); ++si) expv[fn][si] = ref(fn, c, L, seeds[fn][si]);
+            for (int a = 0; a < naligns; ++a)
+            {
+                Block& b = blocks[std::size_t(a)];
+                place(b, a, L, 0xff, c);
+                const unsigned char* key = b.base + a;
+                for (int fn = 0; fn < NFN; ++fn)
+                {
+                    const int ci = cls_index(fn, L);
+                    if (skip[fn][ci]) { g_skipped += (long long)seeds[fn].size(); continue; }
+                    for (std::size_t si = 0; si < seeds[fn].size(); ++si)
+                    {
+                        const uint64_t seed = seeds[fn][si];
+                        const uint64_t exp = expv[fn][si];
+                        const uint64_t got = call(fn, key, L, seed);
+                        const bool as = vf::take_asan();
+                        ++g_evals;
+                        if (a == 0) { canon[fn][si] = got; if (L > lmain) ++g_distinct; }   // lengths <= lmain: these keys and seeds are already counted by the MAIN part
+                        if (got != exp) report_value(fn, seed, a, 0xff, 'R', c, L, got, exp, true, canon[fn][si]);
+                        if (as) { report_asan(fn, seed, a, 0xff, 'R', c, L, key); skip[fn][ci] = true; break; }
+                    }
+                }
+            }
+        }
+        g_long_kind = -1;
+        for (Block& b : blocks) free_block(b);
+        ++lengths;
+    }
+    vf::stat("long_lengths", lengths);
+    if (!stopped) vf::smax("long_max_length_completed", (long long)lmax);
+    if (shard == 0)
+        vf::sample("long grid: hash_bytes / murmur2_x86 / murmur2_x64 (key = 32-bit word counter pattern, length " + num((long long)lmax) + ", seed 0xc70f6907) at offsets 0.." +
+                   num(naligns - 1) + " of a 16-aligned exact-size malloc block -> one value each == reference", 12);
+}
+
+// ------------------------------------------------------------------------------------------------ part: fslong (long strlen-layout fixed strings at odd addresses)
+typedef xtl::xbasic_fixed_string<char, 400, xtl::buffer> FS_S400;   // characters only, alignment 1: data() can have any address
+typedef xtl::xbasic_fixed_string<char, 400> FS_F400;                // size field + buffer
+static void fs_long_len(std::size_t L, bool verbose)
+{
+    std::string c = long_content(0, L);
+    for (char& ch : c) if (ch == 0) ch = 1;   // strlen layout: no NUL inside
+    alignas(16) static unsigned char arena[sizeof(FS_S400) + 32];
+    bool have = false;
+    uint64_t first = 0;
+    std::string first_where;
+    {
+        FS_F400 f(c.data(), c.size());
+        if (f.size() == L && std::memcmp(f.data(), c.data(), L) == 0) { have = true; first = uint64_t(std::hash<FS_F400>()(f)); first_where = "xbasic_fixed_string<char,400>"; ++g_evals; }
+        else ++g_fs_skipped;
+    }
+    for (std::size_t off = 0; off < 8; ++off)
+    {
+        if (off % alignof(FS_S400) != 0) continue;
+        std::memset(arena, 0xA5, sizeof arena);
+        FS_S400* s = new (arena + off) FS_S400(c.data(), c.size());
+        bool valid = s->size() == L && std::memcmp(s->data(), c.data(), L) == 0;
+        uint64_t h = uint64_t(std::hash<FS_S400>()(*s));
+        unsigned dalign = unsigned(reinterpret_cast<uintptr_t>(s->data()) & 7);
+        s->~FS_S400();
+        if (!valid) { ++g_fs_skipped; continue; }
+        ++g_evals;
+        std::string where = "xbasic_fixed_string<char,400,buffer> constructed at offset " + num((long long)off) + " of a 16-aligned byte array (data() % 8 == " + num(dalign) + ")";
+        if (verbose) std::printf("%s -> %s\n", where.c_str(), h64(h).c_str());
+        if (!have) { have = true; first = h; first_where = where; continue; }
+        if (h != first)
+            vf::violation("C14/std::hash<fixed_string>/xbasic_fixed_string<char,400,buffer>/differs-for-equal-strings",
+                          "the " + num((long long)L) + "-character string (word counter pattern, first bytes " + spaced(reinterpret_cast<const uint8_t*>(c.data()), std::min<std::size_t>(L, 12)) +
+                              ") hashes to " + h64(h) + " as " + where + " but to " + h64(first) + " as " + first_where + " (both compare equal to the intended characters)",
+                          {"--fs-long-one", num((long long)L)});
+    }
+    if (L >= 1) ++g_distinct;
+}
+static void part_fslong()
+{
+    for (std::size_t L = 0; L <= 400; ++L) fs_long_len(L, false);
+    vf::stat("fs_long_lengths", 401);
+    vf::stat("fs_layout_skipped_string_not_as_intended", g_fs_skipped);
+    vf::sample("std::hash of equal strings of every length 0..400 in xbasic_fixed_string<char,400,buffer> objects constructed at offsets 0..7 of a byte array and in xbasic_fixed_string<char,400> -> one value per string", 12);
+}
+
 // ------------------------------------------------------------------------------------------------ reference self-test
 static uint64_t ref32_as_f(const uint8_t* p, std::size_t n, uint64_t s) { return c14ref::murmur2_32(p, n, uint32_t(s)); }
 static uint64_t ref64_as_f(const uint8_t* p, std::size_t n, uint64_t s) { return c14ref::murmur2_64a(p, n, s); }
@@ -676,9 +845,9 @@ int main(int argc, char** argv)
 #endif
     selftest();
     std::string part = "main";
-    std::size_t lmin = 0, lmax = 39, len = 3;
+    std::size_t lmin = 0, lmax = 39, len = 3, lmain = 0;
     bool pairs = false, wide = false, two_seeds = false;
-    int shard = 0, nshard = 1;
+    int shard = 0, nshard = 1, naligns = 16;
     Dims d;
     d.placements = {'R', 'M'};
     d.aligns = {0, 1, 2, 3, 4, 5, 6, 7};
@@ -712,13 +881,24 @@ int main(int argc, char** argv)
             i += 5;
         }
         else if (a == "--fs-one") { fs_content(unhex(argv[++i]), true); part = ""; }
+        else if (a == "--fs-long-one") { fs_long_len(std::size_t(std::atoi(argv[++i])), true); part = ""; }
+        else if (a == "--naligns") naligns = std::atoi(argv[++i]);
+        else if (a == "--lmain") lmain = std::size_t(std::atoi(argv[++i]));
+        else if (a == "--long-one")
+        {
+            long_one(fn_by_name(argv[i + 1]), std::strtoull(argv[i + 2], nullptr, 0), std::atoi(argv[i + 3]), std::atoi(argv[i + 4]), std::size_t(std::atoi(argv[i + 5])), true);
+            part = "";
+            i += 5;
+        }
         else { std::fprintf(stderr, "unknown argument %s\n", a.c_str()); return 2; }
     }
-    if (lmax > 120 || (part == "full" && (len < 1 || len > 4))) { std::fprintf(stderr, "bounds out of range\n"); return 2; }
+    if ((part != "long" && lmax > 120) || lmax > 100000 || naligns < 1 || naligns > 16 || (part == "full" && (len < 1 || len > 4))) { std::fprintf(stderr, "bounds out of range\n"); return 2; }
     if (part == "main") part_main(lmin, lmax, pairs, wide, shard, nshard, d);
     else if (part == "full") part_full(len, pairs, two_seeds, shard, nshard, d);
     else if (part == "guard") part_guard(lmax, wide);
     else if (part == "fs") part_fs();
+    else if (part == "long") part_long(lmin, lmax, lmain, naligns, wide, shard, nshard);
+    else if (part == "fslong") part_fslong();
     else if (part != "") { std::fprintf(stderr, "unknown part %s\n", part.c_str()); return 2; }
     for (int fn = 0; fn < NFN; ++fn)
         for (int c = 0; c < 8; ++c)
